@@ -7,7 +7,9 @@
 
 mod alloc;
 mod canon;
+mod net;
 mod reader;
+mod valve;
 
 use std::io::{BufRead, Write};
 use std::panic::{catch_unwind, AssertUnwindSafe};
@@ -20,6 +22,7 @@ type EntryFn = fn(&[&str]) -> String;
 fn entries() -> Vec<(&'static str, EntryFn)> {
     let mut v: Vec<(&'static str, EntryFn)> = Vec::new();
     v.extend(reader::entries());
+    v.extend(valve::entries());
     v
 }
 
